@@ -348,7 +348,7 @@ PROPS['C07'] = dict(
     module='SlotVerif.Props.C07',
     suites=[dict(name='expl', variant='explanations', comparator='prf',
                  quick=dict(count=1600, timeout=900), thorough=dict(count=60000, timeout=3000, set=dict(max_pairs=12)))],
-    rule='corr.proof: histories of add_syn_expr and union_justified (one fresh label per union) from the C01 generator '
+    rule='corr.proof: histories of add_syn_expr, union_justified (one fresh label per union) and rule applications (apply_rewrites with one of 8 substitution-free rules: commutativity, associativity, swaps, h-to-k, a rule under a lam binder, exchange of two sum binders, a slot swap; pairs of terms that differ by one rule application at the root, inside a context or under a binder) from the C01 generator '
          '(3-cycles and longer, non-commuting generators, redundant slots, self-reference, binders); for every ordered pair of '
          'tracked terms that eq reports equal (first 6; 12 in thorough) explain_equivalence is called under catch_unwind, the returned '
          'DAG is walked through ProvenEqRaw::proof()/equ(), every node claim is exported as a pair of TERMS through get_syn_expr, and '
@@ -366,9 +366,11 @@ PROPS['C07'] = dict(
                   'get_syn_expr is used to turn the implementation\'s claims into terms (it is the documented observation point); '
                   'the asserted equations and the queried pairs come from the harness\'s own history, not from the e-graph'],
     assumptions=COMMON_ASSUME + [
-        'rule applications are not covered: a leaf created by a rewrite is stated over e-class arguments whose redundant slots are '
-        'filled with fresh names independently on both sides, so at term level it is an instance of the rule only modulo redundancy '
-        'facts the leaf does not carry; the suite uses justified unions of fully syntactic handles only',
+        'leaves of rule applications are judged as literal instances of the rule (PC.ruleInstance: injective renaming of the pattern '
+        'slots, pattern variables replaced by terms, substitution found by an untrusted matcher); a leaf stated over e-class arguments '
+        'whose redundant slots were filled with fresh names independently on both sides is an instance only modulo redundancy facts the '
+        'leaf does not carry — such leaves are counted as undecided (rule_application_leaves_undecided in the evidence), never as '
+        'violations; rules with substitution patterns `b[x := t]` are not used',
         'to_flat_string is not called: it recurses without bound on cyclic slot maps (src/explain/flat.rs map_slot) and overflows '
         'the stack; it is not an observation point of the property',
         'explanations build without the checks feature: with checks, assert_match_equation additionally demands a globally bijective '
